@@ -881,16 +881,19 @@ func decodeLinkLayerDiscovery(data []byte, p gopacket.PacketBuilder) error {
 			if err := checkLLDPTLVLen(v, 9); err != nil {
 				return err
 			}
-			mlen := v.Value[0]
-			if err := checkLLDPTLVLen(v, int(mlen+7)); err != nil {
+			mlen := int(v.Value[0])
+			if mlen < 1 {
+				return errors.New("Malformed LinkLayerDiscovery MgmtAddress TLV")
+			}
+			if err := checkLLDPTLVLen(v, mlen+7); err != nil {
 				return err
 			}
 			info.MgmtAddress.Subtype = IANAAddressFamily(v.Value[1])
 			info.MgmtAddress.Address = v.Value[2 : mlen+1]
 			info.MgmtAddress.InterfaceSubtype = LLDPInterfaceSubtype(v.Value[mlen+1])
 			info.MgmtAddress.InterfaceNumber = binary.BigEndian.Uint32(v.Value[mlen+2 : mlen+6])
-			olen := v.Value[mlen+6]
-			if err := checkLLDPTLVLen(v, int(mlen+7+olen)); err != nil {
+			olen := int(v.Value[mlen+6])
+			if err := checkLLDPTLVLen(v, mlen+7+olen); err != nil {
 				return err
 			}
 			info.MgmtAddress.OID = string(v.Value[mlen+7 : mlen+7+olen])
